@@ -17,9 +17,10 @@ import (
 
 	"github.com/flamego/flamego"
 	"github.com/flamego/flamego/verifharness/internal/evid"
+	"github.com/flamego/flamego/verifharness/internal/gen"
 )
 
-const rule = "case = request method in {GET, HEAD, POST, head} x an underlying writer (with or without http.Flusher, with or without io.ReaderFrom) x a history of 1..14 operations over {WriteHeader(100..999), Write / io.WriteString / io.Copy of 0..64 bytes (optionally cut short by the underlying writer with an error), Flush, Before(hook)}; hooks set a header, read Status()/Written() and log themselves. " +
+const rule = "case = request method in {GET, HEAD, POST, head} x an underlying writer (with or without http.Flusher, with or without io.ReaderFrom) x a history of 1..14 operations over {WriteHeader(100..999), Write / io.WriteString / io.Copy of 0..64 bytes or of 0.5..70 KB (optionally cut short by the underlying writer with an error), Flush, Before(hook)}; hooks set a header, read Status()/Written() and log themselves. " +
 	"Oracle: a state-machine model written from the statement, compared after every step (Status, Written, Size, return values of Write) together with invariants over the log of calls the underlying writer received (<=1 WriteHeader, before every Write/Flush; hooks registered before the trigger ran exactly once, in reverse order, before that WriteHeader, and saw Status()==0; later hooks never run). " +
 	"non-trivial = a history with >=2 hooks and a trigger, or a second WriteHeader / an implicit 200, or a body write on HEAD, or a short write; distinct by case text"
 
@@ -316,6 +317,9 @@ func genCase(t *rapid.T) Case {
 			c.Ops = append(c.Ops, Op{K: "wh", V: rapid.IntRange(100, 999).Draw(t, "code")})
 		case k < 5:
 			op := Op{K: []string{"w", "w", "ws", "cp"}[rapid.IntRange(0, 3).Draw(t, "wk")], V: rapid.IntRange(0, 64).Draw(t, "n")}
+			if rapid.IntRange(0, 9).Draw(t, "big") == 0 {
+				op.V = gen.BigSizes[rapid.IntRange(0, len(gen.BigSizes)-1).Draw(t, "bigsize")]
+			}
 			if op.K == "cp" && op.V == 0 {
 				op.V = 1
 			}
